@@ -553,6 +553,17 @@ class Path:
         if why:
             self.assumed.append(why)
 
+    def condition(self, f):
+        """add a path condition that is NOT a fact about callee results: it says which executions take this path
+        (generator completeness VCs must establish it, not assume it)"""
+        f = z3.simplify(f) if z3.is_expr(f) else f
+        if isinstance(f, bool) or z3.is_true(f) or z3.is_false(f):
+            if f is False or (z3.is_expr(f) and z3.is_false(f)):
+                raise Infeasible()
+            return
+        self.pc.append(f)
+        self.sadd(f)
+
     def oblige(self, name, f, where="", kind="assert", ctx=None):
         """Record a proof obligation pc => f and assume it afterwards."""
         if isinstance(f, bool):
